@@ -183,6 +183,39 @@ def gen_reservoir():
             m.defined["ideal_alpha_scaled"]["ret"] = "list"
         m.defined["build_matrix"]["ret"] = 3
         P.Tr(m, fn, emit_name=name, kinds=kinds, cut_before=is_solve, ret_names=["a_matrix", "b"]).translate()
+    # ---- the part of SinglePhaseReservoir.simulate before the time loop: schedule handling (None -> constant; a length that
+    # differs from len(time) raises) and the initial profile.  Two shapes: schedule None / a float array.
+    sim = m.method("SinglePhaseReservoir", "simulate")
+    loop_at = [i for i, n in enumerate(sim.body) if isinstance(n, ast.For)]
+    if len(loop_at) != 1:
+        raise P.Untranslatable("SinglePhaseReservoir.simulate: expected exactly one time loop")
+
+    class Pre(ast.NodeTransformer):
+        def visit_Attribute(self, node):
+            self.generic_visit(node)
+            d = ast.unparse(node)
+            ren = {"self.nx": "nx", "self.pressure_fracface": "default_pressure_fracface", "self.fluid.m_i": "fluid_m_i",
+                   "self.fluid.m_scaled_func": "fluid_m_scaled_func"}
+            if d in ren:
+                return ast.copy_location(ast.Name(id=ren[d], ctx=ast.Load()), node)
+            return node
+    keep = []
+    for n in sim.body[:loop_at[0]]:
+        txt = ast.unparse(n)
+        if isinstance(n, ast.Expr) and isinstance(n.value, ast.Constant):
+            continue
+        if txt.startswith(("self.time =", "self.__dict__.pop(", "dx_squared =", "pseudopressure = np.empty(", "pseudopressure[0, :] =")):
+            continue      # bookkeeping / storage handled by the object model (C10) and the loop-body translation
+        keep.append(Pre().visit(copy.deepcopy(n)))
+    retp = ast.parse("return (m_f, pseudopressure_initial)").body[0]
+    for shape, fixed, kinds in (("scalar", {"pressure_fracface": None}, {}), ("schedule", {}, {"pressure_fracface": "list"})):
+        fn = ast.FunctionDef(name="single_prelude_" + shape,
+                             args=ast.arguments(posonlyargs=[], args=[ast.arg(arg=a) for a in ("time", "pressure_fracface", "nx", "default_pressure_fracface", "fluid_m_i", "fluid_m_scaled_func")],
+                                                kwonlyargs=[], kw_defaults=[], defaults=[]),
+                             body=copy.deepcopy(keep) + [retp], decorator_list=[], lineno=sim.lineno, col_offset=0)
+        ast.fix_missing_locations(fn)
+        P.Tr(m, fn, emit_name="single_prelude_" + shape, option=True, ret_annot="option (list R * list R)", fixed=fixed,
+             kinds=dict({"time": "list", "nx": "nat", "fluid_m_scaled_func": "vfun"}, **kinds)).translate()
     # recovery_factor: the flux stencil of one time level (pp[:, k] -> u_k)
     rf = m.method("IdealReservoir", "recovery_factor")
     rate = [n for n in ast.walk(rf) if isinstance(n, ast.Assign) and isinstance(n.targets[0], ast.Name) and n.targets[0].id == "rate"]
